@@ -50,6 +50,7 @@ class Pool():
         self._pending_per_worker = {}
         self._retry = retry
         self._retries = []
+        self._enqueued_total = {} # worker id -> number of inputs handed to that worker by all runs so far
 
         self._workers_lock = threading.Lock()
         self._next_worker_id = 0
@@ -241,6 +242,9 @@ class Pool():
             self._pending = 0
             self._pending_per_worker = { worker.id: [] for worker in self.workers }
             self._retries = []
+            # results are numbered by their worker; anything up to this number answers an input of an earlier run
+            # which has been aborted (e.g. by an exception from its input source) and must not be taken for ours
+            stale_up_to = { worker.id: self._enqueued_total.get(worker.id, 0) for worker in self.workers }
             ret = []
 
             def next_inputs(worker):
@@ -314,6 +318,7 @@ class Pool():
             def handle_enqueue(worker, data):
                 self._pending += 1
                 self._pending_per_worker[worker.id].append(data)
+                self._enqueued_total[worker.id] = self._enqueued_total.get(worker.id, 0) + 1
                 logger.debug('Current pending results: {}, for {} only: {}', self._pending, worker, len(self._pending_per_worker[worker.id]))
                 if worker_callback:
                     worker_callback(worker, 'enqueued')
@@ -415,8 +420,11 @@ class Pool():
                         logger.warning('Received None message - finishing the loop with {} pending executions and {} workers running', self._pending, len(set(self._workers.keys()).difference(self._closed)))
                         break
 
-                    unused_counter, flag, result, wid = msg
+                    counter, flag, result, wid = msg
                     assert wid in self._workers
+                    if flag and counter is not None and counter <= stale_up_to.get(wid, 0):
+                        logger.debug('Ignoring a result which belongs to an earlier run from worker {}', wid)
+                        continue
                     worker = self._workers.get(wid, None)
                     if not flag:
                         if worker.id not in self._closed: # if a worker died while enqueueing, its death has already been handled but we will (possibly) end up here
